@@ -111,7 +111,8 @@ def programs : List (String × Option Chan × List Op) := [
     some cmd, [recv cmd, acq ackStatus, rel ackStatus, acq ackWaker, rel ackWaker]),
   -- sweeper (expiration/mod.rs:96-114): shard write lock across the evictions
   ("sweeper tick",
-    none, [acq ttlShard, acq kwShard, rel kwShard, acq wu, acq storeShard, rel storeShard, rel wu, rel ttlShard]),
+    none, [acq ttlShard, acq kwShard, acq storeShard, rel storeShard, rel kwShard,   -- remove_if: the condition reads the store under the key id's shard guard
+           acq wu, acq storeShard, rel storeShard, rel wu, rel ttlShard]),
   -- access-count consumer (admission_policy.rs:80-96)
   ("consumer: Full batch",
     some buf, [recv buf, acq af, rel af])
@@ -145,10 +146,12 @@ def programEdges : List (Cls × Cls) := (programs.flatMap (fun p => edgesFrom []
     (`kw.update` is ONE action); an eviction subtracts the weight and removes the store entry under `weight_used`
     (`wuOwner` across `wu.sub`/`store.remove`); the sweeper holds its expiry shard across the evictions (`ttlOwner`);
     `get_ref` keeps the store shard's read guard across `pool.add` (`storeReaders`); sampling estimates under the
-    iterator's guard; `poll` reads the status under the waker lock. -/
+    iterator's guard; `poll` reads the status under the waker lock; the sweeper's `kw.remove` action checks the stored
+    value under the key id's shard guard. -/
 def atomicityRests : List (Cls × Cls) :=
   [(.kwShard, .wu), (.wu, .storeShard), (.ttlShard, .kwShard), (.ttlShard, .wu), (.ttlShard, .storeShard),
-   (.storeShard, .poolBuf), (.kwShard, .af), (.kwShard, .kwShard), (.ackWaker, .ackStatus)]
+   (.storeShard, .poolBuf), (.kwShard, .af), (.kwShard, .kwShard), (.ackWaker, .ackStatus),
+   (.kwShard, .storeShard)]   -- the sweeper's `remove_if`: the check of the stored value runs under the key id's shard guard (fix 36c87dc)
 
 /-- Is the edge "holding a lock of class `held`, acquiring one of class `wanted`" (`same` = the very same lock
     instance) allowed by the discipline? Used to validate the lock log of the real crate. -/
